@@ -25,11 +25,15 @@
      FrameCopy    express_in stores a copy of the frame  (library: TRUE; FALSE = keeps the caller's
                   array and skips the work when it already holds that very array)
      TreeRule     when aabb_tree is rebuilt: "none" = only if unset (library); "aabbs" = also if aabbs unset
+     DetailsFirst contact_forces(return_details=True): make_details rewrites the contact points and forces of the
+                  ContactSurface IN PLACE into the world frame; the library accumulates the wrenches first (FALSE).
+                  TRUE = details first: the wrenches are then accumulated from world-frame data with the bodies'
+                  centres of mass still in the frame of body 2 and rotated once more
    HydroSession.cfg checks the library's design exhaustively for all sessions of MaxCalls steps; every
    HydroSession_mut_*.cfg changes one decision, and TLC prints each shortest history that exposes it
    (WITNESS lines) - those histories are replayed on the implementation by harness/props/c16.py. *)
 EXTENDS Integers, Sequences, FiniteSets, TLC, Json
-CONSTANTS Bodies, Invalidate, Cached, FrameCopy, TreeRule, MaxCalls, MaxMoves, Witness
+CONSTANTS Bodies, Invalidate, Cached, FrameCopy, TreeRule, DetailsFirst, MaxCalls, MaxMoves, Witness
 VARIABLES ver, vfr, ofr, arr, cache, stale, hist
 vars == <<ver, vfr, ofr, arr, cache, stale, hist>>
 Caches == {"tetrahedra_points", "com", "aabbs", "aabb_tree", "bary"}
@@ -70,7 +74,8 @@ ContactForces(b1, b2, bp, det) ==
         /\ ofr' = [ofr EXCEPT ![b1] = ofr[b2]]
         /\ arr' = [arr EXCEPT ![b1] = IF FrameCopy THEN "private" ELSE arr[b2]]
         /\ cache' = [cache EXCEPT ![b1] = Forget(c1), ![b2] = Forget(c2)]
-        /\ stale' = (StaleRead(c1, used1, f) \/ StaleRead(c2, used2, vfr[b2]) \/ vfr[b2] # ofr[b2] \/ f = Wrong)
+        /\ stale' = (StaleRead(c1, used1, f) \/ StaleRead(c2, used2, vfr[b2]) \/ vfr[b2] # ofr[b2] \/ f = Wrong
+                     \/ (DetailsFirst /\ det))
         /\ UNCHANGED ver
 
 (* the user moves a body that is expressed in its own frame: in place (mutating the pose array) or update_pose(new array) *)
